@@ -441,6 +441,84 @@ func (g *gen) bucketSplitCase(id string) *EvalCase {
 	return c
 }
 
+// bucketDenseCase: several bucket computations inside ONE evaluation — weighted segment rules
+// (nested and sibling), flag rollouts behind them, prerequisites with rollouts — over a small pool
+// of salts, kinds and bucket-by attributes, so that computations with equal parameters but
+// different keys meet in one evaluation.
+func (g *gen) bucketDenseCase(id string) *EvalCase {
+	r := g.r
+	c := &EvalCase{ID: id, Kind: "eval", Opts: WOpts{Log: true, Rec: true, Sec: r.chance(1, 4)}}
+	c.Store.Flags, c.Store.Segments = []WFlag{}, []WSegment{}
+	c.Ctx = g.context()
+	if c.Ctx.T == "invalid" {
+		s := g.sctx("user")
+		c.Ctx = WCtx{T: "single", C: &s}
+	}
+	salts := []string{"salt", "salt", "s2"}
+	kinds := []string{"", "", "user", "org"}
+	by := func(ck string) WRef {
+		if r.chance(2, 3) {
+			return mkRef("", "")
+		}
+		if ck == "" {
+			return mkRef("lit", pick(r, []string{"a", "key", "n"}))
+		}
+		return mkRef("ref", pick(r, []string{"a", "key", "n"}))
+	}
+	weight := func() int { return pick(r, []int{100000, 100000, 50000, 30000, 70000, 0, 99999}) }
+	nSeg := 2 + r.intn(3)
+	for i := 0; i < nSeg; i++ {
+		s := simpleSegment(fmt.Sprintf("w%d", i))
+		s.Salt = pick(r, salts)
+		s.Form = g.form()
+		for j, m := 0, 1+r.intn(2); j < m; j++ {
+			ck := pick(r, kinds)
+			rule := WSegRule{ID: fmt.Sprintf("r%d", j), Clauses: []WClause{}, Weight: ip(weight()), RCK: ck, By: by(ck)}
+			if i+1 < nSeg && r.chance(1, 3) {
+				rule.Clauses = append(rule.Clauses, segRefRule(fmt.Sprintf("w%d", i+1)).Clauses[0])
+			}
+			s.Rules = append(s.Rules, rule)
+		}
+		c.Store.Segments = append(c.Store.Segments, s)
+	}
+	rollout := func() WVR {
+		ck := pick(r, kinds)
+		ro := WRollout{CK: ck, By: by(ck), Vars: []WWV{{V: 0, W: 50000}, {V: 1, W: 50000}}}
+		if r.chance(1, 4) {
+			ro.Kind = "experiment"
+		}
+		if r.chance(1, 5) {
+			ro.Seed = ip(pick(r, []int{1, 61}))
+		}
+		return WVR{RO: ro}
+	}
+	mkFlag := func(key string) WFlag {
+		f := simpleFlag(key, true, 0, 2)
+		f.Salt = pick(r, salts)
+		f.Form = g.form()
+		for i, n := 0, r.intn(3); i < n; i++ {
+			cl := segRefRule(fmt.Sprintf("w%d", r.intn(nSeg))).Clauses[0]
+			cl.Neg = r.chance(1, 3)
+			vr := rollout()
+			if r.chance(1, 3) {
+				vr = WVR{V: ip(r.intn(2)), RO: WRollout{Vars: []WWV{}, By: mkRef("", "")}}
+			}
+			f.Rules = append(f.Rules, WFlagRule{ID: fmt.Sprintf("r%d", i), VR: vr, Clauses: []WClause{cl}})
+		}
+		f.FT = rollout()
+		return f
+	}
+	top := mkFlag("top")
+	for i, n := 0, r.intn(3); i < n; i++ {
+		pf := mkFlag(fmt.Sprintf("p%d", i))
+		c.Store.Flags = append(c.Store.Flags, pf)
+		top.Prereqs = append(top.Prereqs, WPrereq{pf.Key, r.intn(2)})
+	}
+	c.Flag = top
+	c.Tags = []string{"bucketdense"}
+	return c
+}
+
 // genStream produces the i-th case of a stream.
 func genStream(name string, r *rng, id string) *EvalCase {
 	g := &gen{r: r}
@@ -454,6 +532,9 @@ func genStream(name string, r *rng, id string) *EvalCase {
 	case "bucketsplit":
 		g.p = profiles["rollouts"]
 		return g.bucketSplitCase(id)
+	case "bucketdense":
+		g.p = profiles["rollouts"]
+		return g.bucketDenseCase(id)
 	case "dateops":
 		g.p = profiles["wellformed"]
 		g.forceOps = []string{"before", "after"}
